@@ -241,6 +241,12 @@ def probe_layer() -> J:
                                        p_value("len", "u8", byte=1)], byte_size=6))
     rq("p_bytesize_ooo", [sid(), p_value("s", "st_bs_ooo"), u8const("tail", 0x03)],
        "struct-bytesize-out-of-order")
+    # ... and one that is filled completely (no padding needed), followed by an implicitly
+    # positioned parameter: the cursor has to end up behind the structure all the same
+    dobjs.append(_struct("st_full_ooo", [p_value("hi", "u8", byte=2), p_value("lo", "u16", byte=0)],
+                         byte_size=3))
+    rq("p_bytesize_full_ooo", [sid(), p_value("s", "st_full_ooo"), p_value("after", "u8")],
+       "struct-bytesize-filled-out-of-order")
     dobjs.append(_struct("st_plain", [p_value("a", "u16"), p_value("b", "s8")]))
     rq("p_struct2", [sid(), p_value("s1", "st_plain"), p_value("s2", "st_plain", byte=6)],
        "struct-twice-gap")
@@ -383,6 +389,9 @@ def probe_layer() -> J:
                        "value": 10},
                       p_value("dflt", "u16", default=4660), p_value("last", "mmz")],
        "reserved-physconst-default")
+    # defaults that are empty (a valid default for strings and byte fields)
+    rq("p_empty_default", [sid(), p_value("txt", "ll16s", default=""), p_value("blob", "ll8", default=b""),
+                           p_value("n", "u8")], "empty-defaults")
     rq("p_minmax_mid", [sid(), p_value("s", "mmz"), p_value("b", "mmf"), p_value("t", "u8")],
        "minmax-followed")
     rq("p_leading", [sid(), p_value("a", "ll8"), p_value("b", "ll16s"), p_value("t", "u8")],
